@@ -1,0 +1,56 @@
+//go:build verif
+
+package jsonrpc
+
+import (
+	"sync/atomic"
+	"time"
+
+	"github.com/gorilla/websocket"
+)
+
+// This file is only compiled with the "verif" build tag. It exposes the
+// observation points (vhook) and a few unexported helpers to the external
+// verification harness. Nothing here changes the behaviour of the library when
+// no hook is installed.
+
+type verifHookFn func(point string, args ...interface{})
+
+var verifHook atomic.Value // verifHookFn
+
+// VerifSetHook installs (or, with nil, removes) the observation callback.
+func VerifSetHook(f func(point string, args ...interface{})) {
+	verifHook.Store(verifHookFn(f))
+}
+
+func vhook(point string, args ...interface{}) {
+	f, _ := verifHook.Load().(verifHookFn)
+	if f != nil {
+		f(point, args...)
+	}
+}
+
+// VerifBackoffNext exposes backoff.next.
+func VerifBackoffNext(minDelay, maxDelay time.Duration, attempt int) time.Duration {
+	b := backoff{minDelay: minDelay, maxDelay: maxDelay}
+	return b.next(attempt)
+}
+
+// VerifNormalizeID exposes normalizeID.
+func VerifNormalizeID(id interface{}) (interface{}, error) {
+	return normalizeID(id)
+}
+
+// VerifWithProxyConnFactory exposes the (test-only) proxyConnFactory option.
+func VerifWithProxyConnFactory(f func(func() (*websocket.Conn, error)) func() (*websocket.Conn, error)) Option {
+	return func(c *Config) {
+		c.proxyConnFactory = f
+	}
+}
+
+// VerifDefaults exposes the default option values.
+func VerifDefaults() (clientPing, clientTimeout, backoffMin, backoffMax, serverPing time.Duration, maxReq int64, maxQueued int) {
+	c := defaultConfig()
+	s := defaultServerConfig()
+	return c.pingInterval, c.timeout, c.reconnectBackoff.minDelay, c.reconnectBackoff.maxDelay, s.pingInterval, s.maxRequestSize, maxQueuedFrames
+}
